@@ -14,7 +14,7 @@ class Ref:
         self.renew = renew
         self.n = 0
         self._mk()
-        self.pres = [ipaddress.ip_network(a) for a in (fcfg.get("pa") or [])]
+        self.pres = ipgen.v4nets(fcfg.get("pa"))
 
     def _mk(self):
         f = self.fcfg
